@@ -31,3 +31,4 @@ def run(ctx, R):
     vmcfg.rule_compose(ctx, R, FI)
     genreset.rule_gen_reset(ctx, R, 'x86')
     x86hsem.rule_hsem(ctx, R)
+    x86hsem.rule_mem_hsem(ctx, R)
